@@ -30,7 +30,7 @@ m = {
         'guard': 'verif-hooks',
         'enable': 'cargo feature: the harness crate depends on svgbob with features = ["verif-hooks"] (off by default)',
         'baseline_off_cmd': 'cd /repo && cargo test --workspace --no-fail-fast --offline',
-        'source_commits': ['89e38d8'],
+        'source_commits': ['89e38d8', 'a0ea107'],
         'add_only': True,
     },
     'engines': [{'name': 'rocq', 'path': 'coq/', 'serves_properties': [c['property_id'] for c in checks],
